@@ -86,23 +86,24 @@ mutual
 /-- `evalPart(ctx, part)` with `ctx.bindings = μ0`, `ctx.graph = g`, `ctx.dataset = D` -/
 def evalPart (D : Dataset) (g : Graph) (μ0 : Row n) : Alg → List (Row n)
   | .bgp tps => evalBGP g (sortTPs μ0 tps) μ0
-  -- evalLazyJoin
+  -- evalLazyJoin: `c = ctx.thaw(a)`, `yield b.merge(a)`
   | .join true a b =>
     (evalPart D g μ0 a).flatMap fun x =>
-      (evalPart D g (μ0.merge x) b).map fun y => y.merge x
+      (evalPart D g x b).map fun y => y.merge x
   -- evalJoin, not lazy
   | .join false a b => joinL (evalPart D g μ0 a) (evalPart D g μ0 b)
   -- evalLeftJoin
   | .leftJoin a b e p1vars p2vars =>
     (evalPart D g μ0 a).flatMap fun x =>
-      if ((evalPart D g (μ0.merge x) b).filter fun y =>
+      if ((evalPart D g x b).filter fun y =>
             isTrue (evalExpr D g (y.forget μ0 (p1vars.getD [] ++ p2vars)) e)).isEmpty then
+        -- not ok: the re-check without the pushed-in bindings
         match p1vars with
         | none => [x]
         | some vs =>
           if (evalPart D g (x.restrict vs) b).any (fun y => isTrue (evalExpr D g y e)) then [] else [x]
       else
-        ((evalPart D g (μ0.merge x) b).filter fun y =>
+        ((evalPart D g x b).filter fun y =>
             isTrue (evalExpr D g (y.forget μ0 (p1vars.getD [] ++ p2vars)) e)).map fun y => y.merge x
   -- evalFilter
   | .filter e p vars noIso =>
@@ -136,7 +137,7 @@ def evalPart (D : Dataset) (g : Graph) (μ0 : Row n) : Alg → List (Row n)
   -- evalMultiset / evalValues
   | .values vars rows => rows.filterMap fun r => valuesRow vars r μ0
   -- evalMultiset (sub-select) / evalProject
-  | .project p pv => (evalPart D g (μ0.restrict pv) p).map (·.restrict pv)
+  | .project p pv => (evalPart D g (μ0.restrict pv) p).map fun r => (r.restrict pv).merge μ0
 /-- `Expr.eval(ctx)` for the operators of the fragment; `none` = a `SPARQLError` -/
 def evalExpr (D : Dataset) (g : Graph) (c : Row n) : Expr → Option Term
   | .var v => c.get v
